@@ -13,8 +13,8 @@
     is FALSE of the model: [C09_kernel_message_panics_refuted] (a committed header whose
     NextValidators set has total power 0).  What holds ([C09_kernel_messages_never_panic_partial])
     is the statement over histories in which every proposed header that the mirror ACCEPTED, and
-    every replayed header, announces a NEXT validator set of non-zero total power ([reachable_a],
-    [step_adm]) - i.e. the application never returns a validator set of total power 0.  Nothing is
+    every replayed header that it APPLIED, announces a NEXT validator set of non-zero total power
+    ([reachable_a], [step_adm]) - i.e. the application never returns a validator set of total power 0.  Nothing is
     assumed about a header's OWN validator set (the kernel compares it with the set of the view the
     header belongs to; a zero-power own set is rejected: [C09_kernel_zero_own_valset_rejected]),
     and the message [o] that is delivered last is completely arbitrary (no bound on its height, no
@@ -23,12 +23,24 @@
     Definitions used below (Proofs/MirrorTotal.v):
       pow_ok vs      := 0 < sum_pows (vs_pows vs)               (uint64 sum, as the kernel computes it)
       step_adm o res := OpPH p => res = HandleProposedHeaderAccepted -> pow_ok (hd_next (ph_hdr p))
-                        | OpReplay x cp => pow_ok (hd_next x) /\ cp_round cp < two32 | votes => True
-      op_wf o        := OpPH p => pow_ok (hd_next (ph_hdr p)) | OpReplay x cp => as above | votes => True   (implies step_adm o res)
+                        | OpReplay x cp => res = 0 -> pow_ok (hd_next x) | votes => True
+      op_wf o        := OpPH p => pow_ok (hd_next (ph_hdr p)) | OpReplay x cp => pow_ok (hd_next x) | votes => True   (implies step_adm o res)
       reachable_a    := init_state, closed under [step s o = Ok (s', res)] with [op_bounded o] and [step_adm o res]
       replay_round_bounded o := OpReplay _ cp => cp_round cp < two32 | _ => True   (a uint32 in Go)
       replay_earlier_guard s x cp := (hd_height x =? v_h (k_vot s)) && (cp_round cp <? v_r (k_vot s))
-    Invariant: [tinv] = [aok] /\ [pok] (on top of [INV] of Proofs/MirrorCert.v). *)
+      replay_fuel_guard s x cp    := (hd_height x =? v_h (k_vot s)) && (v_r (k_vot s) <=? cp_round cp)
+                                     && negb (the jump loop arrived at round cp_round cp of the same height)
+    Invariant: [tinv] = [aok] /\ [pok] (on top of [INV] of Proofs/MirrorCert.v).
+
+    Repaired in the Go code since the first version of this file (each followed by the model):
+      - the round store refusing a replayed header no longer panics the kernel main loop (the former
+        third Panic site of [handle_replay] is gone);
+      - HandleProposedHeader rejects a header whose own validator set differs from its view's set
+        (the former second refutation witness is rejected; no hypothesis on [hd_vals] is left);
+      - handleReplayedHeader validates before it mutates: a rejected replay returns the state
+        unchanged ([C09_kernel_replay_rejected_is_identity]), so only an APPLIED replay (result 0)
+        has to announce a next validator set of non-zero power, and the uint32 bound on the replayed
+        round is no longer part of the history hypothesis (only of the message delivered last). *)
 From Coq Require Import List NArith String.
 From GV Require Import Base.Ints Gen.Math Gen.Kernel Model.Mirror
   Proofs.MirrorChain Proofs.MirrorCert Proofs.MirrorTotal.
@@ -51,6 +63,21 @@ Theorem C09_kernel_messages_never_panic_partial : forall ih ivs s o,
   end.
 Proof. exact kernel_messages_never_panic. Qed.
 Print Assumptions C09_kernel_messages_never_panic_partial.
+
+(** The same without any bound on the replayed round: both guards of [handle_replay] are exact. *)
+Theorem C09_kernel_messages_never_panic_any_round_partial : forall ih ivs s o,
+  1 <= ih -> vs_ok ivs = true -> 0 < sum_pows (vs_pows ivs) ->
+  reachable_a ih ivs s ->
+  match o with
+  | OpPH _ | OpPrevote _ | OpPrecommit _ => exists s' r, step s o = Ok (s', r)
+  | OpReplay x cp =>
+      ((exists s' r, step s o = Ok (s', r)) /\
+       replay_earlier_guard s x cp = false /\ replay_fuel_guard s x cp = false) \/
+      (replay_earlier_guard s x cp = true /\ step s o = Panic site_replay_earlier) \/
+      (replay_fuel_guard s x cp = true /\ step s o = Panic site_replay_fuel)
+  end.
+Proof. exact kernel_messages_never_panic_any_round. Qed.
+Print Assumptions C09_kernel_messages_never_panic_any_round_partial.
 
 (** The invariant behind it, for every state reachable through admissible inputs: the available
     power of the voting and next-round views is in [1, 2^64), the committing header's validator
@@ -107,23 +134,39 @@ Theorem C09_kernel_replay_earlier_round_reachable :
 Proof. exact replay_earlier_round_reachable. Qed.
 Print Assumptions C09_kernel_replay_earlier_round_reachable.
 
-(** The input that used to hit the "round store refused the replayed header" site is handled. *)
+(** The input that used to hit the "round store refused the replayed header" site is handled:
+    the header is filed as a proposed header of the replayed round and committed. *)
 Theorem C09_kernel_replay_store_refused_is_ok :
   reachable_a 1 ex_vs (state_after ops_ph_round1) /\
-  exists s', step (state_after ops_ph_round1) (OpReplay (ex_hdr ex_vs ex_vs) (mk_cproof 1 [1] [])) = Ok (s', 2) /\
+  exists s', step (state_after ops_ph_round1) (OpReplay (ex_hdr ex_vs ex_vs) ex_cp_round1) = Ok (s', 0) /\
              In (WPH (fake_ph (ex_hdr ex_vs ex_vs) 1)) (st_log s').
 Proof. exact replay_store_refused_is_ok. Qed.
 Print Assumptions C09_kernel_replay_store_refused_is_ok.
 
+(** A rejected replay (any result other than 0) leaves the state exactly as it was - for EVERY
+    state, header and commit proof. *)
+Theorem C09_kernel_replay_rejected_is_identity : forall s x cp s' res,
+  step s (OpReplay x cp) = Ok (s', res) -> res <> 0 -> s' = s.
+Proof. exact replay_rejected_is_identity. Qed.
+Print Assumptions C09_kernel_replay_rejected_is_identity.
+
+Theorem C09_kernel_replay_rejected_example :
+  step (init_state 1 ex_vs) (OpReplay (ex_hdr ex_vs ex_vs) (mk_cproof 1 [1] [])) = Ok (init_state 1 ex_vs, 2).
+Proof. exact replay_rejected_example. Qed.
+Print Assumptions C09_kernel_replay_rejected_example.
+
 (** The model's "out of fuel" site is unreachable: its guard is false in every reachable state
     (even over [reachable_b]) once the replayed round is a uint32 ... *)
 Theorem C09_kernel_replay_fuel_guard_false : forall ih ivs s x cp,
-  1 <= ih -> vs_ok ivs = true -> reachable_b ih ivs s ->
-  hd_height x = v_h (k_vot s) -> v_r (k_vot s) <= cp_round cp -> cp_round cp < two32 ->
-  negb ((v_r (k_vot (replay_jumped s cp)) =? cp_round cp) &&
-        (v_h (k_vot (replay_jumped s cp)) =? hd_height x)) = false.
+  1 <= ih -> vs_ok ivs = true -> reachable_b ih ivs s -> cp_round cp < two32 ->
+  replay_fuel_guard s x cp = false.
 Proof. exact replay_fuel_site_unreachable. Qed.
 Print Assumptions C09_kernel_replay_fuel_guard_false.
+
+Theorem C09_kernel_replay_fuel_guard_panics : forall s x cp,
+  replay_fuel_guard s x cp = true -> step s (OpReplay x cp) = Panic site_replay_fuel.
+Proof. exact replay_fuel_guard_panics. Qed.
+Print Assumptions C09_kernel_replay_fuel_guard_panics.
 
 (** ... and [step] never returns it. *)
 Theorem C09_kernel_replay_never_out_of_fuel : forall ih ivs s x cp,
